@@ -63,6 +63,12 @@ def parseData (s : String) : Bytes :=
   match s.splitOn ":" with
   | ["h", h] => (unhex h).getD []
   | ["g", len, seed] => lcgBytes (len.toNat?.getD 0) (seed.toNat?.getD 0).toUInt64
+  | ["z", len, seed, blk, mask] =>
+    -- LCG bytes with block i (of `blk` bytes) zeroed when bit i%64 of `mask` is set
+    let b := lcgBytes (len.toNat?.getD 0) (seed.toNat?.getD 0).toUInt64
+    let k := blk.toNat?.getD 1
+    let m := mask.toNat?.getD 0
+    (b.zipIdx).map (fun (x, i) => if k > 0 && (m >>> ((i / k) % 64)) % 2 == 1 then 0 else x)
   | _ => []
 
 def parseMD (s : String) : MDIn :=
@@ -146,6 +152,7 @@ structure DState where
   img : Option Img := none
   facts : List (Nat × SigFacts) := []
   fps : List (Nat × Bytes) := []        -- key index ↦ PGP fingerprint
+  store : Option Store := none          -- C14: bare backing store driven by raw calls
 
 def DState.factsOf (st : DState) (blob : Bytes) : SigFacts := (st.facts.lookup (fnv64 blob).toNat).getD {}
 def DState.fpOf (st : DState) (k : Nat) : Bytes := (st.fps.lookup k).getD []
@@ -201,6 +208,8 @@ partial def readDIBlock (inp : IO.FS.Stream) : IO (Except Err DI) := do
   readDI inp (parseKV (toks.drop 1))
 
 def backendOf (s : String) : Backend := if s == "file" then .file else .buf
+
+def stState (s : Store) : String := s!"pos={s.pos} len={s.buf.length} fnv={fnvHex s.buf}"
 
 /-- the canonical `io` lines of a call list (C09: the operation's I/O plan) -/
 def ioLines (cs : List IOCall) : List String :=
@@ -265,6 +274,36 @@ partial def loop (inp : IO.FS.Stream) (out : IO.FS.Stream) (st : DState) : IO Un
     | "nop" =>
       out.putStrLn "nop"
       loop inp out st
+    | "stnew" =>
+      let s : Store := { be := backendOf (kv.get "be"), buf := parseData (kv.get "data"), pos := 0 }
+      out.putStrLn s!"st new {stState s}"
+      loop inp out { st with store := some s }
+    | "stseek" | "stseekend" | "stwrite" | "sttrunc" | "stread" =>
+      match st.store with
+      | none =>
+        out.putStrLn "nostore"
+        loop inp out st
+      | some s =>
+        let (s', r) : Store × String :=
+          match cmd with
+          | "stseek" =>
+            match s.seekStart (kv.int "off") with
+            | some s' => (s', s!"seek r={s'.pos}/ok")
+            | none => (s, "seek r=0/err")
+          | "stseekend" => (s.seekEnd, s!"seek r={s.buf.length}/ok")
+          | "stwrite" =>
+            let p := parseData (kv.get "data")
+            (s.write p, s!"write r={p.length}/ok")
+          | "sttrunc" =>
+            match s.truncate (kv.int "n") with
+            | some s' => (s', "trunc r=ok")
+            | none => (s, "trunc r=err")
+          | _ =>
+            let n := kv.nat "n"
+            let b := readAt s.buf (kv.nat "off") n
+            (s, s!"read r={b.length}:{fnvHex b}/{if b.length < n then "eof" else "ok"}")
+        out.putStrLn s!"st {r} {stState s'}"
+        loop inp out { st with store := some s' }
     | "patch" =>
       -- raw byte edits of the file followed by a fresh load (tampering)
       let n := kv.nat "nsites"
